@@ -112,6 +112,15 @@ FRESH = [
     ("def s = <<1, 2>>; def r = s - 1; [s, r]", "[<<1, 2>>, <<2>>]"),
     ("def s = <<1, 2>>; def r = s + <<3>>; remove(r, 1); s", "<<1, 2>>"),
     ("def r = permutations(a); a", "[1, 2]"),
+    # member assignment changes exactly the targeted object, never its prototype or siblings
+    ("def p = <*count = 0*>; def i1 = <*_proto_ = p*>; def i2 = <*_proto_ = p*>; i1->count = 5; [i1->count, i2->count, p->count]",
+     "[5, 0, 0]"),
+    ("def p = <*count = 0*>; def i1 = <*_proto_ = p*>; i1->count += 2; [i1->count, p->count]", "[2, 0]"),
+    ("def p = <*items = [1]*>; def i1 = <*_proto_ = p*>; i1->items = [9]; [i1->items, p->items]", "[[9], [1]]"),
+    ("def p = <*n = 1*>; def q = <*_proto_ = p*>; def i1 = <*_proto_ = q*>; i1['n'] = 7; [i1->n, q->n, p->n]", "[7, 1, 1]"),
+    ("def p = <*n = 1*>; def i1 = <*_proto_ = p*>; p->n = 3; [i1->n, p->n]", "[3, 3]"),
+    ("def p = <*n = 1*>; def i1 = <*_proto_ = p, n = 2*>; i1->n = 4; [i1->n, p->n]", "[4, 1]"),
+    ("def o = <*v = [1]*>; def o2 = o; o2->v = [2]; o->v", "[2]"),
     ("def l = [3, 1, 2]; def r = permutations(l); l", "[3, 1, 2]"),
 ]
 
